@@ -241,6 +241,8 @@ def rule_k6(chk: Check, F, ix: Index, thorough: bool):
     if len(outer) != 1:
         raise AnalysisError("line loop of _tokenize not found")
     dispatch = [st for st in outer[0].body if isinstance(st, ast.If)]
+    # the mode dispatch is the `if` chain that asks about the open string / bracket depth (an end-of-input block may precede it)
+    dispatch = [st for st in dispatch if "end_progs" in norm_stmt(st.test) or "parenlev" in norm_stmt(st.test)] or dispatch
     leaks = []
     stale: list = []
     if dispatch:
